@@ -899,7 +899,7 @@ func (tr *FnTr) assumeGlobals() {
 	eng := tr.eng
 	// package variables declared immutable hold in every state what they held at entry
 	if len(eng.immutables) > 0 && tr.top.entry.Mem != nil && tr.st.Mem != tr.top.entry.Mem {
-		for g := range eng.globals {
+		for _, g := range tr.top.globalList {
 			if g.Pkg == nil || !eng.immutables[g.Pkg.Pkg.Path()+"."+g.Name()] {
 				continue
 			}
@@ -916,6 +916,10 @@ func (tr *FnTr) assumeGlobals() {
 	for _, g := range eng.globals_ {
 		sp := eng.pkgs[g.Pkg]
 		if sp == nil {
+			continue
+		}
+		// an invariant about a package's variables concerns only code that can see the package
+		if tr.top.fn != nil && tr.top.fn.Pkg != nil && !pkgSees(tr.top.fn.Pkg.Pkg, g.Pkg) {
 			continue
 		}
 		ctx := &SpecCtx{tr: tr, st: tr.st, old: tr.top.entry, pkg: sp}
@@ -974,4 +978,37 @@ func isGhostLibType(T types.Type) bool {
 	}
 	p := nt.Obj().Pkg().Path()
 	return p == "bytes" || p == "bufio" || p == "hash" || strings.HasPrefix(p, "crypto/") || strings.HasSuffix(p, "/ripemd160")
+}
+
+var pkgSeesMemo = map[string]bool{}
+
+// pkgSees: is the package with this path p itself or among its transitive imports?
+func pkgSees(p *types.Package, path string) bool {
+	if p == nil {
+		return true
+	}
+	key := p.Path() + " -> " + path
+	if v, ok := pkgSeesMemo[key]; ok {
+		return v
+	}
+	seen := map[*types.Package]bool{}
+	var walk func(q *types.Package) bool
+	walk = func(q *types.Package) bool {
+		if q.Path() == path {
+			return true
+		}
+		if seen[q] {
+			return false
+		}
+		seen[q] = true
+		for _, im := range q.Imports() {
+			if walk(im) {
+				return true
+			}
+		}
+		return false
+	}
+	r := walk(p)
+	pkgSeesMemo[key] = r
+	return r
 }
